@@ -19,6 +19,18 @@ CLAIMED = {
             "hypotheses are probed numerically on scipy's functions; two recorded CGMY findings.",
             "Lean 4 proof (HasDerivAt + FTC, improper integrals) + differential correspondence + high-precision quadrature oracle",
             "DESIGN.md §4 C09"),
+    "C10": ("Lean 4 theorems: the drift after any walk of representation changes is a0 - cRep(r0) + cRep(r_last), hence conversions are "
+            "path-independent and reversible (finite and infinite variation); the canonical drift plus the jump part of the exponent at -i "
+            "is conserved by conversions; the three pricing routes are martingale routes by algebra: (r-d+omega) + psi(-i) = r-d, the "
+            "direct-simulation drifts of Black-Scholes, Merton (abstract exponential) and HEM (kappa(1) = lambda*xi proved rational) "
+            "satisfy drift + sigma^2/2 + kappa(1) = r-d, and the Markov-chain drift bookkeeping reproduces r-d+omega+aTilde+muTilde; "
+            "negation witnesses for the pre-fix HEM drift and for a flipped CENTER sign. Correspondence/oracles: set_representation walks vs "
+            "the model fed the model's own first-moment integrals, levy_exponent vs the Levy-Khintchine integral (25-digit quadrature of "
+            "the model's own density), cumulants vs Cauchy-integral derivatives of the exponent, forward from each route.",
+            "Partial: exponent = Levy-Khintchine integral, cumulants = derivatives and kappa(1) as an integral are compared numerically, "
+            "not proved; five recorded CGMY findings (y<0, y=0, y=1 exponent/cumulant vs declared triplet).",
+            "Lean 4 proof (conserved canonical drift over walks, field algebra) + differential correspondence + quadrature oracles",
+            "DESIGN.md §4 C10"),
     "C11": ("Lean 4 theorems: the Clayton formula over an abstract generator pair and over Real.rpow for every theta > 0, eta in [0,1] is "
             "grounded (any d), has identity margins (d = 2, 3) and is 2-increasing on every rectangle of the extended plane without a "
             "doubly-infinite corner (d = 2, convexity of the negative power proved); the executable theta = 1 / independent / completely "
@@ -132,6 +144,44 @@ CLAIMED = {
             "by witnesses and recorded as findings; non-default domain boundaries not modelled.",
             "Lean 4 proof (induction on dimension, shell arithmetic, state-machine invariants) + differential correspondence",
             "DESIGN.md §4 C14"),
+    "C17": ("Lean 4 model of payoff.py, underlying.py and Product.update / underlying_value / __call__ as a state machine (barrier flag, "
+            "representation binding) over Q with an abstract exp/log pair. Theorems for all strikes, barriers, paths, grids and histories: "
+            "call - put = forward (per component), call spread and butterfly equal their call combinations, call spread >= 0, digital "
+            "call + put = 1, knock-in + knock-out = vanilla, the Asian average is a convex combination of the path values, default time = "
+            "first time a jump falls below the threshold (infinite iff none), n-th defaults are order statistics and non-decreasing in n, "
+            "notional linear, identity and log representations agree, and pure_in_path: after any operation history the value for a path "
+            "is the pure function of (path, terms, representation of the last update); decide-witnesses for the three pre-fix machines. "
+            "Correspondence: random operation sequences on every underlying x payoff pair through a stateful Lean driver (exact on "
+            "dyadic inputs, 2^-40 with exp/log tables); identities and used-vs-fresh object oracles on the implementation.",
+            "Partial: butterfly non-negativity only for K1+K3 <= 2*K2 (false of the code otherwise: recorded finding), identity/log "
+            "agreement of the performance classes under a homomorphism hypothesis proved for the reals; numpy exp/log compared; three "
+            "recorded findings.",
+            "Lean 4 proof (invariant over List.foldl histories, order statistics, finite sums) + differential correspondence",
+            "DESIGN.md §4 C17"),
+    "C18": ("Lean 4 theorems about a model of the composition logic of COSPricer / FFTPricer / CFBlackScholes (transform values abstract): "
+            "put-call parity by construction for COS and FFT over any field, Black-Scholes parity from Phi(x)+Phi(-x)=1 incl. the "
+            "degenerate branch, digital = df*probability, the COS coefficients chi_k / psi_k / u_put as their defining integrals (FTC); "
+            "spec-level no-arbitrage shape (antitone, convex, intrinsic <= call <= df*F, call-spread slope in [-df,0], butterfly >= 0, "
+            "digital antitone in [0,df]) for every finitely supported terminal law. Correspondence: driver at 2^-40 on the pricers' own "
+            "put/forward/df values; property oracles with independently computed forward and df on five families inside a measured "
+            "convergence box (parity, bounds, monotonicity, convexity, density, COS vs FFT vs closed form, VG vs CGMY(y=0), vector vs scalar).",
+            "Partial: truncation / series / FFT discretisation errors and the link series = expectation are not proved; cross-pricer "
+            "agreement uses measured tolerances; observations outside the statement (cdf discounting, degenerate sigma) are not judged.",
+            "Lean 4 proof (field algebra, Finset sums over the reals, HasDerivAt + FTC) + differential correspondence + property oracle",
+            "DESIGN.md §4 C18"),
+    "C20": ("Lean 4 theorems about the parameter objects as a state machine (constraint-checked setters, derived attributes, initialisation) "
+            "for every family, abstract Gamma/power/sqrt, start object and operation list: no history stores a value violating a declared "
+            "constraint and a rejected assignment leaves the object unchanged; after any history followed by initialisation the cached "
+            "attributes equal the family's function of the final primaries and the object equals the constructor on them; calibration "
+            "contract (returned value inside the interval, accepted by the setter, reprices within tolerance given the root-finder "
+            "contract) and input-untouched under deepcopy; pre-fix Black-Scholes witness. Generated obligations re-checked on every run "
+            "against measurements: the default_calibration table, the derived attributes found by diffing __dict__ across "
+            "initialisation(), constructor signatures and the accept/reject pattern of every setter. Oracles: calibrate_* and "
+            "run_default_calibration on all families (interval, repricing 1e-6, type, input untouched, unreachable targets raise), "
+            "rebuilt-vs-direct model equality.",
+            "Partial: brentq and the COS price are outside the model (contract hypothesis; repricing oracle-checked).",
+            "Lean 4 proof (state-machine invariants over op lists) + behaviour-derived generated obligations + oracle",
+            "DESIGN.md §4 C20"),
 }
 
 NOT_YET = "check not built yet in this session (planned: DESIGN.md §4); not claimed until its Lean model, theorems and correspondence exist"
